@@ -1,7 +1,8 @@
 (** C06 proofs, part 2: the invariant of the validator / healer / heal-worker transition
     system for the repaired code ([fixed]), its preservation by every step of every thread,
     what it gives in a terminal state, progress, and the termination measure. *)
-From Wharf Require Import Base.Prelude FS.Tree FS.TreeProofs FS.Ops FS.OpsProofs
+From Coq Require Import Arith Lia.
+From Wharf Require Import FS.Light FS.Tree FS.TreeProofs FS.Ops FS.OpsProofs
      Heal.Validator Heal.Healer Heal.HealLemmas.
 
 Section Proofs.
